@@ -113,6 +113,10 @@ struct Adv<'a> {
     /// every request about that child consistently (own MMR root, honest samples and last-N headers of the real ancestors)
     fake: HashMap<usize, usize>,
     pow_violated: bool,
+    /// captured before every SendLastStateProof: the peer's proven header (hash, total difficulty, epoch, compact target) and the
+    /// outstanding request (start number, difficulty boundary, last-N)
+    ps_before: Option<(packed::Byte32, ckb_types::U256, ckb_types::core::EpochNumberWithFraction, u32, u64, ckb_types::U256, u64)>,
+    td_violated: bool,
 }
 
 impl<'a> Adv<'a> {
@@ -142,6 +146,57 @@ impl<'a> Adv<'a> {
             self.pow_violated = true;
             self.out.violation("C01.R4", &format!("C01|header-without-valid-pow-in-trusted-state|{}", wh),
                 json!({"scenario": self.desc, "where": wh, "header": hd, "after_message": last_msg, "trace": w.trace_vec().into_iter().rev().take(25).collect::<Vec<_>>()}), self.k);
+        }
+    }
+}
+
+impl<'a> Adv<'a> {
+    /// ground truth, independent of labels (C01.R5): when a proof WITH sampled headers moves a peer's proven header from A to B, the pair
+    /// (A, B) has passed the total-difficulty range check - evaluated here by calling the client's own pure function
+    /// verify_total_difficulty (whose verdicts C14 judges on their own). Whatever the layout of the accepted answer was (with or
+    /// without a reorg section), a move across a range that this function refuses is a proof that was not fully verified.
+    fn check_total_difficulty_of_the_move(&mut self, w: &World, pi: usize, m: &Resp, described: &str) {
+        let (a_hash, a_td, a_epoch, a_compact, start_number, boundary, last_n) = match self.ps_before.take() {
+            Some(x) => x,
+            None => return,
+        };
+        if self.td_violated || w.client.is_none() || w.dead {
+            return;
+        }
+        let b = match w.c().peers.get_state(&w.peers[pi].id).and_then(|st| st.get_prove_state().cloned()) {
+            Some(ps) => ps,
+            None => return,
+        };
+        let bh = b.get_last_header();
+        if bh.header().hash() == a_hash {
+            return;
+        }
+        // sampled headers in the accepted message, counted the way the protocol defines the sections
+        let msg = match packed::LightClientMessageReader::from_compatible_slice(&m.data).map(|x| x.to_enum()) {
+            Ok(packed::LightClientMessageUnionReader::SendLastStateProof(r)) => r.to_entity(),
+            _ => return,
+        };
+        let hs: Vec<ckb_types::utilities::merkle_mountain_range::VerifiableHeader> = msg.headers().into_iter().map(Into::into).collect();
+        let reorg = hs.iter().take_while(|h| h.header().number() < start_number).count();
+        let nonreorg = hs.len() - reorg;
+        let sampled = if (nonreorg as u64) <= last_n {
+            0
+        } else {
+            let bb = hs.iter().skip(reorg).take_while(|h| h.total_difficulty() < boundary).count();
+            if ((nonreorg - bb) as u64) > last_n { bb } else { nonreorg - last_n as usize }
+        };
+        if sampled == 0 {
+            return;
+        }
+        self.out.eval(1);
+        self.out.count("prove_state_moves_with_samples_checked_against_the_total_difficulty_range", 1);
+        self.out.cell(&format!("move-with-samples|reorg-section={}", reorg > 0));
+        use crate::protocols::light_client::verif_access::verify_total_difficulty;
+        if let Err(why) = verify_total_difficulty(a_epoch, a_compact, &a_td, bh.header().epoch(), bh.header().compact_target(), &bh.total_difficulty(), 2) {
+            self.td_violated = true;
+            self.out.violation("C01.R5", &format!("C01|proven-header-moved-across-a-refused-total-difficulty-range|reorg-section={}", reorg > 0),
+                json!({"scenario": self.desc, "message": described, "from": format!("{:x}", a_hash), "to": format!("#{} {:x}", bh.header().number(), bh.header().hash()), "refused_because": why.chars().take(300).collect::<String>(),
+                    "sampled_headers": sampled, "reorg_headers": reorg, "trace": w.trace_vec().into_iter().rev().take(20).collect::<Vec<_>>()}), self.k);
         }
     }
 }
@@ -240,6 +295,17 @@ impl<'a> Hook for Adv<'a> {
     }
 
     fn before_deliver(&mut self, w: &mut World, pi: usize, m: &Resp) {
+        self.ps_before = None;
+        if w.client.is_some() && m.proto == LC && server::kind_of(m.proto, &m.data) == "SendLastStateProof" {
+            if let Some(st) = w.c().peers.get_state(&w.peers[pi].id) {
+                if let (Some(ps), Some(req)) = (st.get_prove_state(), st.get_prove_request()) {
+                    let lh = ps.get_last_header();
+                    let c = req.get_content();
+                    self.ps_before = Some((lh.header().hash(), lh.total_difficulty(), lh.header().epoch(), lh.header().compact_target(),
+                        c.start_number().unpack(), c.difficulty_boundary().unpack(), c.last_n_blocks().unpack()));
+                }
+            }
+        }
         // the outstanding request is the second one of a tau recheck (the client switched its tau check off for this answer)
         let rechecking = w.client.is_some()
             && w.c().peers.get_state(&w.peers[pi].id).and_then(|st| st.get_prove_request().map(|r| r.if_skip_check_tau())).unwrap_or(false);
@@ -273,6 +339,7 @@ impl<'a> Hook for Adv<'a> {
         if m.proto == LC {
             let d = server::describe(m.proto, &m.data);
             self.check_pow_of_trusted_headers(w, &d);
+            self.check_total_difficulty_of_the_move(w, pi, m, &d);
         }
         match &m.label {
             Label::Invalid(op) => {
@@ -405,6 +472,8 @@ fn scenario(seed: u64, k: u64, out: &Out) {
         real_pow: params.pow == super::super::chain::PowKind::Eaglesong,
         fake: HashMap::new(),
         pow_violated: false,
+        ps_before: None,
+        td_violated: false,
     };
     w.connect_all();
     let phases = rng.range(3, 9);
